@@ -177,6 +177,10 @@ func runC18(t *testing.T, tier string) int {
 	for _, v := range mv {
 		sink.add(v)
 	}
+	sn, sv := c18Sequences()
+	for _, v := range sv {
+		sink.add(v)
+	}
 	if len(samples) == 0 {
 		samples = append(samples, "none")
 	}
@@ -189,6 +193,7 @@ func runC18(t *testing.T, tier string) int {
 		"scenarios":                     perScen,
 		"exhaustive":                    complete,
 		"match_inputs":                  mi,
+		"interceptor_call_pairs":        sn,
 		"explanation":                   "stateless DFS over all interleavings of the real faults.Set code at every lock acquisition, atomic operation and goroutine spawn (sync / sync/atomic routed through scheduler shims by an overlay rewrite), up to the stated preemption bound per scenario (-1 = unbounded); states = scheduling decisions taken, every execution runs the implementation itself",
 	}
 	ev := report.Evidence{PropertyID: "C18", Tier: tier, Seed: report.Seed(), Level: "model_checking", Coverage: cov,
